@@ -29,7 +29,7 @@ RULE = ("streams: flat = members of the theorems' family (one 01 group; fixed el
         "nested = layout_common.gen_tree(allow_odo, no REDEFINES): ODO tables inside groups, sibling groups, depth<=4 (outside the family, judged "
         "against Spec/Layout.v all the same); boundary = long X fields + an ODO table, record lengths around 16384, 20000 and 32768 so the RECFM_N "
         "refill boundary is crossed; lrecl-none = lrecl None / 0 (known finding). Files of 2-30 records (boundary 3-6), count vectors per record "
-        "incl. 0 and max, each as RECFM N, V and VB. Per row: all table paths, refused index, first/last occurrence, item following each table, "
+        "incl. 0 and max, each as RECFM N, V and VB; fixed = the same records padded to a common LRECL in a RECFM F / FB file. Per row: all table paths, refused index, first/last occurrence, item following each table, "
         "counters by name, plus sampled paths. Branch = 10*recfm + 1 (flat family) / 2 (outside) + 2 when the file is longer than the 32768-byte "
         "buffer; 90 = lrecl missing. distinct = distinct case lines.")
 TRIVIAL_BRANCHES = [0]
@@ -225,6 +225,9 @@ def inputs(ctx):
     for i in range(12 if q else 72):
         yield "boundary", dict(kind="boundary", seed=rng.randrange(1 << 30), recfm=(0 if i % 4 != 3 else 1 + (i // 4) % 2),
                                lrecl=32768, target=targets[i % len(targets)])
+    # the same variable-length records in a fixed-length (RECFM F/FB) file: each record padded to the file's LRECL
+    for i in range(40 if q else 500):
+        yield "fixed", dict(kind="flat" if i % 2 == 0 else "nested", seed=rng.randrange(1 << 30), recfm=3, lrecl=None)
     for i in range(6 if q else 30):
         yield "lrecl-none", dict(kind="flat" if i % 2 == 0 else "nested", seed=rng.randrange(1 << 30), recfm=i % 3,
                                  lrecl=None if i % 3 != 2 else 0)
@@ -278,7 +281,9 @@ def build_case(c):
     return tree, envs, recs, per_row, counters, blocking
 
 
-def image_of(recfm, recs, blocking):
+def image_of(recfm, recs, blocking, lrecl=None):
+    if recfm == 3:
+        return b"".join(r + bytes([0x40]) * (lrecl - len(r)) for r in recs)
     if recfm == 0:
         return b"".join(recs)
     if recfm == 1:
@@ -336,9 +341,13 @@ def observe(ctx, c):
     tree, envs, recs, per_row, counters, blocking = build_case(c)
     names = assign_names(tree)
     rev = {v: k for k, v in names.items()}
-    image = image_of(c["recfm"], recs, blocking)
-    cls = [estruct.RECFM_N, estruct.RECFM_V, estruct.RECFM_VB][c["recfm"]]
-    head = [tree_sx(tree), c["recfm"], [0] if c["lrecl"] is None else [1, c["lrecl"]],
+    lrecl = c["lrecl"]
+    if c["recfm"] == 3:
+        # LRECL of the fixed-length file: the longest record of this file plus 0..3 bytes (derived from the seed)
+        lrecl = max(max(len(r) for r in recs), 1) + c["seed"] % 4
+    image = image_of(c["recfm"], recs, blocking, lrecl)
+    cls = [estruct.RECFM_N, estruct.RECFM_V, estruct.RECFM_VB, estruct.RECFM_F if c["seed"] % 2 else estruct.RECFM_FB][c["recfm"]]
+    head = [tree_sx(tree), c["recfm"], [0] if lrecl is None else [1, lrecl],
             [[[k, v] for k, v in sorted(e.items())] for e in envs],
             [[cid, p] for cid, p, _, _ in counters], [enc(r) for r in recs], blocking]
     try:
@@ -353,7 +362,7 @@ def observe(ctx, c):
             f.write(image)
         with open(path, "rb") as f:
             on_disk = f.read()
-        wb = COBOL_EBCDIC_File(path, recfm_class=cls, lrecl=c["lrecl"])
+        wb = COBOL_EBCDIC_File(path, recfm_class=cls, lrecl=lrecl)
         try:
             sheet = wb.sheet("")
             try:
